@@ -1021,8 +1021,9 @@ func (c *Ctx) shortFn(fn *ssa.Function) string { return c.FuncName(fn) }
 
 // namedRecvIs: fn is a method whose receiver's named type is pkgrel.typ.
 func namedOf(t types.Type) *types.Named {
+	t = types.Unalias(t)
 	if p, ok := t.(*types.Pointer); ok {
-		t = p.Elem()
+		t = types.Unalias(p.Elem())
 	}
 	n, _ := t.(*types.Named)
 	return n
